@@ -151,3 +151,77 @@ def tier(arr, comp, idx):
         return arr.item()
     t = arr.shape[0]
     return arr.at_index(((comp if t == 3 else 0),) + tuple(A._raw_index(x) for x in idx))
+
+
+# ---------------------------------------------------------------------------------------
+# Detector co-location (C15): every component is interpolated onto the E_z node (i, j, k+1/2)
+# ---------------------------------------------------------------------------------------
+
+
+class Colocation:
+    """E_x: (i+1/2, j, k)   -> backward in x, forward in z      E_y: backward in y, forward in z
+    E_z: already there                                          H_x: (i, j+1/2, k+1/2) -> backward in y
+    H_y: backward in x                                          H_z: backward in x and y, forward in z
+    'backward in a' interpolates the samples of cells i-1 and i linearly (by physical distance) onto
+    the edge between them; 'forward in z' is the plain midpoint of k and k+1 (edge-aligned samples).
+    Ghost values follow the boundary (zero / wrap / Bloch phase) except on an ELECTRIC symmetry plane
+    (config.symmetry[a] == -1, min face) where the lower ghost is the parity-weighted mirror image:
+    partner cell 0 for components sampled half a cell off the plane, cell 1 for components on it."""
+
+    def __init__(self, yee, electric_symmetry_axes=()):
+        self.y = yee
+        self.sym = tuple(electric_symmetry_axes)
+
+    def sample(self, F, kind, comp, idx):
+        """F[comp] at idx with ghost semantics incl. the symmetry mirror (kind: 'E'|'H')"""
+        y = self.y
+        idx = list(idx)
+        sign = 1
+        for a in self.sym:
+            i = idx[a]
+            below = i < 0
+            if isinstance(below, bool) and not below:
+                continue
+            if kind == "E":
+                on_plane = comp != a  # tangential E sits on the plane
+                parity = 1 if comp == a else -1  # normal E even, tangential E odd
+            else:
+                on_plane = comp == a  # normal H sits on the plane
+                parity = -1 if comp == a else 1  # normal H odd, tangential H even
+            partner = 1 if on_plane else 0
+            idx[a] = ite(below, partner, i)
+            sign = sign * ite(below, parity, 1)
+        v = y.at(F, comp, tuple(idx))
+        return v * sign if not (isinstance(sign, int) and sign == 1) else v
+
+    def back(self, f, a, idx):
+        """linear interpolation of cell-centred samples f(idx) and f(idx - e_a) onto their common edge"""
+        y = self.y
+        prev = list(idx)
+        prev[a] = prev[a] - 1
+        cur_v, prev_v = f(tuple(idx)), f(tuple(prev))
+        if y.widths is None:
+            return (cur_v + prev_v) / 2
+        i = idx[a]
+        wc = y.w(a, i) / 2
+        wp = ite(A.v_eq(i, 0), y.w(a, i), y.w(a, i - 1)) / 2  # ghost cell as wide as the first cell
+        return (cur_v * wp + prev_v * wc) / (wc + wp)
+
+    def fwd_mid(self, f, a, idx):
+        nxt = list(idx)
+        nxt[a] = nxt[a] + 1
+        return (f(tuple(idx)) + f(tuple(nxt))) / 2
+
+    def E(self, F, comp, idx):
+        s = lambda c: (lambda p: self.sample(F, "E", c, p))  # noqa: E731
+        if comp == 2:
+            return s(2)(tuple(idx))
+        return self.fwd_mid(lambda p: self.back(s(comp), comp, p), 2, idx)
+
+    def H(self, G, comp, idx):
+        s = lambda c: (lambda p: self.sample(G, "H", c, p))  # noqa: E731
+        if comp == 0:
+            return self.back(s(0), 1, idx)
+        if comp == 1:
+            return self.back(s(1), 0, idx)
+        return self.fwd_mid(lambda p: self.back(lambda q: self.back(s(2), 0, q), 1, p), 2, idx)
